@@ -20,10 +20,14 @@ StartsWith(s, p) == Len(p) <= Len(s) /\ SubSeq(s, 1, Len(p)) = p
 EndsWith(s, p)   == Len(p) <= Len(s) /\ SubSeq(s, Len(s) - Len(p) + 1, Len(s)) = p
 
 RECURSIVE FindFrom(_, _, _)
+(* searched 64 positions at a time: buffers can be > 100 000 bytes long and one level of
+   recursion per byte makes TLC (and the JVM's garbage collector, which scans the stack) crawl *)
 FindFrom(s, b, i) ==
     IF i > Len(s) THEN 0
-    ELSE IF s[i] = b THEN i
-    ELSE FindFrom(s, b, i + 1)
+    ELSE LET j == Min2(i + 63, Len(s))
+             hit == {k \in i..j : s[k] = b}
+         IN  IF hit = {} THEN FindFrom(s, b, j + 1)
+             ELSE CHOOSE k \in hit : \A m \in hit : k <= m
 
 (* index of the first occurrence of byte b in s, 0 if there is none *)
 Find(s, b) == FindFrom(s, b, 1)
@@ -87,9 +91,12 @@ Utf8SeqLen(s, i) ==
         ELSE 0
 
 RECURSIVE Utf8From(_, _)
+(* runs of US-ASCII are skipped 64 bytes at a time (see FindFrom) *)
 Utf8From(s, i) ==
     IF i > Len(s) THEN TRUE
-    ELSE LET n == Utf8SeqLen(s, i) IN n > 0 /\ Utf8From(s, i + n)
+    ELSE LET j == Min2(i + 63, Len(s))
+         IN  IF \A k \in i..j : s[k] < 128 THEN Utf8From(s, j + 1)
+             ELSE LET n == Utf8SeqLen(s, i) IN n > 0 /\ Utf8From(s, i + n)
 
 Utf8Valid(s) == Utf8From(s, 1)
 
